@@ -443,4 +443,209 @@ theorem batchLoop_pad (ops : List Op) : ∀ (acc : Acc) (done : List OpBatch), a
 theorem batchOps_pad (ops : List Op) : ∀ b ∈ batchOps ops, PadOk b.groups b.opCounts :=
   batchLoop_pad ops {} [] Acc.wf_init Acc.dec_init Acc.pad_init (by intro b hb; cases hb)
 
+/-- Values of the groups that hold immediates: the groups below `n` that are neither finalised
+    operation groups (count ≠ 0) nor the group `cur` that is being filled. -/
+def immsOf (groups counts : List Nat) (n cur : Nat) : List Nat :=
+  ((List.range n).filter (fun i => counts.getD i 0 = 0 ∧ i ≠ cur)).map (fun i => groups.getD i 0)
+
+theorem immsOf_congr (g g' c c' : List Nat) (n cur cur' : Nat)
+    (h : ∀ i, i < n → (g.getD i 0 = g'.getD i 0 ∨ ¬ (c.getD i 0 = 0 ∧ i ≠ cur)) ∧
+      ((c.getD i 0 = 0 ∧ i ≠ cur) ↔ (c'.getD i 0 = 0 ∧ i ≠ cur'))) :
+    immsOf g c n cur = immsOf g' c' n cur' := by
+  unfold immsOf
+  induction n with
+  | zero => rfl
+  | succ n ih =>
+    rw [List.range_succ, List.filter_append, List.filter_append, List.map_append, List.map_append]
+    rw [ih (fun i hi => h i (by omega))]
+    obtain ⟨h1, h2⟩ := h n (by omega)
+    congr 1
+    by_cases e : c.getD n 0 = 0 ∧ n ≠ cur
+    · have e' := h2.mp e
+      rcases h1 with h1 | h1
+      · simp only [List.filter_cons, List.filter_nil, decide_eq_true e, decide_eq_true e', if_true, List.map_cons, List.map_nil, h1]
+      · exact absurd e h1
+    · have e' : ¬ (c'.getD n 0 = 0 ∧ n ≠ cur') := fun x => e (h2.mpr x)
+      simp only [List.filter_cons, List.filter_nil, decide_eq_false e, decide_eq_false e', Bool.false_eq_true, if_false, List.map_nil]
+
+
+theorem immsOf_succ (g c : List Nat) (n cur : Nat) :
+    immsOf g c (n + 1) cur = immsOf g c n cur ++ (if c.getD n 0 = 0 ∧ n ≠ cur then [g.getD n 0] else []) := by
+  unfold immsOf
+  rw [List.range_succ, List.filter_append, List.map_append]
+  congr 1
+  by_cases e : c.getD n 0 = 0 ∧ n ≠ cur
+  · rw [if_pos e]
+    simp only [List.filter_cons, List.filter_nil, decide_eq_true e, if_true, List.map_cons, List.map_nil]
+  · rw [if_neg e]
+    simp only [List.filter_cons, List.filter_nil, decide_eq_false e, Bool.false_eq_true, if_false, List.map_nil]
+
+/-- Immediates invariant: the immediate groups below `nextGroupIdx` hold the immediates of the
+    operations added so far, in order; and a non-empty accumulator has a non-empty current group. -/
+def Acc.Imm (a : Acc) : Prop :=
+  immsOf a.groups a.opCounts a.nextGroupIdx a.groupIdx = a.ops.reverse.filterMap Op.imm
+
+theorem Acc.imm_init : Acc.Imm {} := by
+  simp [Acc.Imm, immsOf, List.range, List.range.loop]
+
+theorem Acc.imm_finalize (a : Acc) (h : a.WF) (d : a.Dec) (m : a.Imm) (hpos : a.opIdx ≠ 0) :
+    a.finalizeGroup.Imm := by
+  obtain ⟨h1, h2, h3, h4, h5, h6⟩ := h
+  show immsOf (a.groups.set a.groupIdx a.group) (a.opCounts.set a.groupIdx a.opIdx) (a.nextGroupIdx + 1)
+      a.nextGroupIdx = a.ops.reverse.filterMap Op.imm
+  rw [immsOf_succ]
+  have hne : ¬ ((a.opCounts.set a.groupIdx a.opIdx).getD a.nextGroupIdx 0 = 0 ∧ a.nextGroupIdx ≠ a.nextGroupIdx) :=
+    fun x => x.2 rfl
+  simp only [hne, if_false, List.append_nil]
+  rw [← m]
+  apply immsOf_congr
+  intro i hi
+  by_cases e : a.groupIdx = i
+  · subst e
+    have hset : (a.opCounts.set a.groupIdx a.opIdx).getD a.groupIdx 0 = a.opIdx := getD_set_eq _ _ _ (by omega)
+    refine ⟨Or.inr (fun x => hpos (by rw [← hset]; exact x.1)), ?_⟩
+    constructor
+    · intro x; exact absurd (by rw [← hset]; exact x.1) hpos
+    · intro x; exact absurd rfl x.2
+  · refine ⟨Or.inl (getD_set_ne _ _ _ _ e), ?_⟩
+    rw [getD_set_ne _ _ _ _ e]
+    constructor
+    · intro x; exact ⟨x.1, fun y => e y.symm⟩
+    · intro x; exact ⟨x.1, by omega⟩
+
+theorem Acc.imm_start (a : Acc) (h : a.WF) (d : a.Dec) (m : a.Imm) : a.startGroupIfFull.Imm := by
+  unfold Acc.startGroupIfFull
+  by_cases e : a.opIdx = 9
+  · simp only [e, if_true]; exact Acc.imm_finalize a h d m (by omega)
+  · simp only [e, if_false]; exact m
+
+theorem Acc.imm_placeImm_core (a : Acc) (v : Nat) (h : a.WF) (d : a.Dec) (m : a.Imm) (hn : a.nextGroupIdx < 8) :
+    immsOf (a.groups.set a.nextGroupIdx v) a.opCounts (a.nextGroupIdx + 1) a.groupIdx
+      = a.ops.reverse.filterMap Op.imm ++ [v] := by
+  obtain ⟨h1, h2, h3, h4, h5, h6⟩ := h
+  rw [immsOf_succ]
+  have hc : a.opCounts.getD a.nextGroupIdx 0 = 0 ∧ a.nextGroupIdx ≠ a.groupIdx :=
+    ⟨d.1 _ (by omega), by omega⟩
+  rw [if_pos hc, getD_set_eq _ _ _ (by omega), ← m]
+  congr 1
+  apply immsOf_congr
+  intro i hi
+  exact ⟨Or.inl (getD_set_ne _ _ _ _ (by omega)), Iff.rfl⟩
+
+theorem Acc.imm_placeImm (a : Acc) (v : Nat) (h : a.WF) (d : a.Dec) (m : a.Imm)
+    (hn : if a.opIdx = 8 then a.nextGroupIdx + 1 < 8 else a.nextGroupIdx < 8) :
+    immsOf (a.placeImm v).groups (a.placeImm v).opCounts (a.placeImm v).nextGroupIdx (a.placeImm v).groupIdx
+      = a.ops.reverse.filterMap Op.imm ++ [v] := by
+  unfold Acc.placeImm
+  by_cases e : a.opIdx = 8
+  · simp only [e, if_true] at hn ⊢
+    have w := Acc.wf_finalize a h (by omega)
+    have d' := Acc.dec_finalize a h d
+    have m' := Acc.imm_finalize a h d m (by omega)
+    exact Acc.imm_placeImm_core a.finalizeGroup v w d' m' (by rw [Acc.finalize_next]; omega)
+  · simp only [e, if_false] at hn ⊢
+    exact Acc.imm_placeImm_core a v h d m hn
+
+theorem Acc.imm_addOp (a : Acc) (op : Op) (h : a.WF) (d : a.Dec) (m : a.Imm) (hc : a.canAccept op = true) :
+    (a.addOp op).Imm ∧ (a.addOp op).opIdx ≠ 0 := by
+  have hI := Op.hasImm_eq op
+  rw [Acc.canAccept_iff] at hc
+  unfold Acc.addOp
+  have h3 : a.opIdx ≤ 9 := h.2.2.1
+  cases himm : op.imm with
+  | none =>
+    refine ⟨?_, Nat.succ_ne_zero _⟩
+    have ms := Acc.imm_start a h d m
+    show immsOf a.startGroupIfFull.groups a.startGroupIfFull.opCounts a.startGroupIfFull.nextGroupIdx
+        a.startGroupIfFull.groupIdx = (op :: a.startGroupIfFull.ops).reverse.filterMap Op.imm
+    rw [List.reverse_cons, List.filterMap_append]
+    simp only [List.filterMap_cons, himm, List.filterMap_nil, List.append_nil]
+    exact ms
+  | some v =>
+    refine ⟨?_, Nat.succ_ne_zero _⟩
+    rw [himm] at hI
+    simp only [hI, Option.isSome_some, if_true] at hc
+    obtain ⟨s1, s2, s3, s4, s5⟩ := Acc.wf_start a h (by
+      intro e; rw [e] at hc; simp at hc; omega)
+    have hn : if a.startGroupIfFull.opIdx = 8 then a.startGroupIfFull.nextGroupIdx + 1 < 8
+        else a.startGroupIfFull.nextGroupIdx < 8 := by
+      rw [s4, s5]
+      by_cases e9 : a.opIdx = 9
+      · rw [e9] at hc; simp at hc; simp [e9]; omega
+      · by_cases e8 : a.opIdx = 8
+        · rw [e8] at hc; simp at hc; simp [e9, e8]; omega
+        · have : a.opIdx < 8 := by omega
+          simp [this] at hc
+          simp [e9, e8]; omega
+    have mp := Acc.imm_placeImm a.startGroupIfFull v s1 (Acc.dec_start a h d) (Acc.imm_start a h d m) hn
+    obtain ⟨_, _, q3⟩ := Acc.wf_placeImm a.startGroupIfFull v s1 s2 hn
+    show immsOf (a.startGroupIfFull.placeImm v).groups (a.startGroupIfFull.placeImm v).opCounts
+        (a.startGroupIfFull.placeImm v).nextGroupIdx (a.startGroupIfFull.placeImm v).groupIdx
+        = (op :: (a.startGroupIfFull.placeImm v).ops).reverse.filterMap Op.imm
+    rw [mp, q3, List.reverse_cons, List.filterMap_append]
+    simp only [List.filterMap_cons, himm, List.filterMap_nil]
+
+/-- The groups of a finished batch below `numGroups` whose count is zero hold the immediates. -/
+def OpBatch.ImmOk (b : OpBatch) : Prop :=
+  immsOf b.groups b.opCounts b.numGroups b.numGroups = b.ops.filterMap Op.imm
+
+theorem Acc.imm_intoBatch (a : Acc) (h : a.WF) (d : a.Dec) (m : a.Imm) (hpos : a.opIdx ≠ 0) :
+    a.intoBatch.ImmOk := by
+  obtain ⟨h1, h2, h3, h4, h5, h6⟩ := h
+  unfold Acc.intoBatch OpBatch.ImmOk
+  have e : a.group ≠ 0 ∨ a.opIdx ≠ 0 := Or.inr hpos
+  simp only [e, if_true]
+  show immsOf (a.groups.set a.groupIdx a.group) (a.opCounts.set a.groupIdx a.opIdx) a.nextGroupIdx a.nextGroupIdx
+      = a.ops.reverse.filterMap Op.imm
+  rw [← m]
+  apply immsOf_congr
+  intro i hi
+  by_cases e : a.groupIdx = i
+  · subst e
+    have hset : (a.opCounts.set a.groupIdx a.opIdx).getD a.groupIdx 0 = a.opIdx := getD_set_eq _ _ _ (by omega)
+    refine ⟨Or.inr (fun x => hpos (by rw [← hset]; exact x.1)), ?_⟩
+    constructor
+    · intro x; exact absurd (by rw [← hset]; exact x.1) hpos
+    · intro x; exact absurd rfl x.2
+  · refine ⟨Or.inl (getD_set_ne _ _ _ _ e), ?_⟩
+    rw [getD_set_ne _ _ _ _ e]
+    constructor
+    · intro x; exact ⟨x.1, fun y => e y.symm⟩
+    · intro x; exact ⟨x.1, by omega⟩
+
+theorem batchLoop_imm (ops : List Op) : ∀ (acc : Acc) (done : List OpBatch), acc.WF → acc.Dec → acc.Imm →
+    (acc.opIdx ≠ 0 ∨ (acc.ops = [] ∧ ∀ op, acc.canAccept op = true)) →
+    (∀ b ∈ done, b.ImmOk) → ∀ b ∈ batchLoop ops acc done, b.ImmOk := by
+  induction ops with
+  | nil =>
+    intro acc done hacc dacc macc hpos hdone b hb
+    unfold batchLoop at hb
+    split at hb
+    · exact hdone b (by simpa using hb)
+    · rename_i hne
+      have hne' : acc.ops ≠ [] := by simpa using hne
+      simp only [List.mem_reverse, List.mem_cons] at hb
+      rcases hb with hb | hb
+      · rw [hb]; exact Acc.imm_intoBatch acc hacc dacc macc (hpos.resolve_right (fun x => hne' x.1))
+      · exact hdone b hb
+  | cons op rest ih =>
+    intro acc done hacc dacc macc hpos hdone b hb
+    unfold batchLoop at hb
+    split at hb
+    · rename_i hc
+      obtain ⟨m', p'⟩ := Acc.imm_addOp acc op hacc dacc macc hc
+      exact ih _ _ (Acc.wf_addOp acc op hacc hc).1 (Acc.dec_addOp acc op hacc dacc hc) m' (Or.inl p') hdone b hb
+    · obtain ⟨m', p'⟩ := Acc.imm_addOp {} op Acc.wf_init Acc.dec_init Acc.imm_init (Acc.init_accepts op)
+      refine ih _ _ (Acc.wf_addOp {} op Acc.wf_init (Acc.init_accepts op)).1
+        (Acc.dec_addOp {} op Acc.wf_init Acc.dec_init (Acc.init_accepts op)) m' (Or.inl p') ?_ b hb
+      intro b' hb'
+      rcases List.mem_cons.mp hb' with h | h
+      · rw [h]
+        rename_i hna
+        exact Acc.imm_intoBatch acc hacc dacc macc (hpos.resolve_right (fun x => hna (x.2 op)))
+      · exact hdone b' h
+
+theorem batchOps_imm (ops : List Op) : ∀ b ∈ batchOps ops, b.ImmOk :=
+  batchLoop_imm ops {} [] Acc.wf_init Acc.dec_init Acc.imm_init (Or.inr ⟨rfl, Acc.init_accepts⟩) (by intro b hb; cases hb)
+
 end Miden
